@@ -188,14 +188,19 @@ func shShapes(thorough bool) []txRecipe {
 	vals := []struct {
 		u uint32
 		s uint64
-	}{{0, 0}, {1, 1}, {0xffffffff, ^uint64(0)}, {0x7fffffff, 1 << 63}}
+	}{{0, 0}, {1, 1}, {0xffffffff, ^uint64(0)}, {0x7fffffff, 1 << 63}, {0x80000000, 21e14}, {0xfffffffe, 0xffffffff}}
+	maxIn, maxOut := 3, 3
+	olens := []int{0, 25, 253}
 	if !thorough {
 		vals = vals[:3]
+	} else {
+		maxIn, maxOut = 4, 4
+		olens = []int{0, 1, 25, 252, 253}
 	}
-	for nin := 1; nin <= 3; nin++ {
-		for nout := 0; nout <= 3; nout++ {
+	for nin := 1; nin <= maxIn; nin++ {
+		for nout := 0; nout <= maxOut; nout++ {
 			for _, v := range vals {
-				for _, ol := range []int{0, 25, 253} {
+				for _, ol := range olens {
 					if nout == 0 && ol != 0 {
 						continue
 					}
@@ -212,7 +217,7 @@ func shShapes(thorough bool) []txRecipe {
 
 func init() {
 	p2 := register(&Prop{ID: "C02", Level: "exploration",
-		Rule: "exhaustive product: tx shapes nIn 1..3 x nOut 0..3 x 3/4 boundary value sets (version, locktime, vout, sequence, spent value, output values in {0,1,max,mid}) x output script length {0,25,253} x previous script of the signed input in {empty, 1 byte, contains 0xab, 253 bytes, P2PKH, missing} x previous txid {present, never set} x input index in {0..nIn-1, nIn, nIn+1, 2^32-1} x all 128 hash types with bit 0x40; oracle: preimage byte-identical to the reference FORKID preimage (reference certified on the node's 500 bip143 + 500 legacy vectors at the start of the run), digest = sha256d, errors exactly for missing input/txid/script, ExtendedBytes unchanged; plus hash -> in-place edit -> hash sequences (3/4 shapes x hash-type pairs x index pairs x 20 single edits incl. pointer replacement, swaps, append/remove) whose second hash must be that of the edited transaction. distinct_nontrivial = distinct reference preimages compared",
+		Rule: "exhaustive product: tx shapes nIn 1..3 x nOut 0..3 (thorough: 1..4 x 0..4) x 3/6 boundary value sets (version, locktime, vout, sequence, spent value, output values in {0,1,max,mid}) x output script length {0,25,253} (thorough: {0,1,25,252,253}) x previous script of the signed input in {empty, 1 byte, contains 0xab, 253 bytes, P2PKH, missing} x previous txid {present, never set} x input index in {0..nIn-1, nIn, nIn+1, 2^32-1} x all 128 hash types with bit 0x40; oracle: preimage byte-identical to the reference FORKID preimage (reference certified on the node's 500 bip143 + 500 legacy vectors at the start of the run), digest = sha256d, errors exactly for missing input/txid/script, ExtendedBytes unchanged; plus hash -> in-place edit -> hash sequences (3/4 shapes x hash-type pairs x index pairs x 20 single edits incl. pointer replacement, swaps, append/remove) whose second hash must be that of the edited transaction. distinct_nontrivial = distinct reference preimages compared",
 	})
 	s2 := NewSpace(p2, "forkid", c02Check)
 	NewSpace(p2, "forkid-seq", shSeqCheck)
